@@ -13,12 +13,14 @@ start failed, and that they are stopped).
 Generated: C01 circuits + recorder probes + events and event filters given by object, by
 name and by '_not_NAME' shortcut (Event destinations, IfOutput control blocks,
 DataEdit.add_output sources) + an optional never connected FuncBlock; explicit finalize()
-before the start in 30 %; one invalid construction per run in 30 % (39 variants of: unknown
+before the start in 30 %; one invalid construction per run in 30 % (56 variants of: unknown
 name in connect/event/filter, block of another circuit, CBlock as event destination, wrong
 signature of Not/Compare/Override, '_not__x', unknown '_not_NAME', duplicate name, second
 connect(), empty connect(), never connected, function not matching the inputs, UNDEF
 constant, list as a positional input, reserved input/block name, CBlock as the control block of
-NotIfInitialized, ExtEvent to a CBlock); 1-3 modification attempts
+NotIfInitialized / IfNotIitialized by name, object and shortcut, ExtEvent to a CBlock, empty
+group where Override expects a single input, 9 wrongly shaped connections of a user CBlock
+with a declared signature); 1-3 modification attempts
 (new SBlock, new CBlock, addblock(), connect() of a connected and of a never connected
 block, set_persistent_data()) per run.
 
@@ -169,7 +171,34 @@ INVALID = [('unknown_connect', 0), ('unknown_connect', 1), ('unknown_connect', 2
            ('never_connected', 0), ('never_connected', 1), ('never_connected', 2),
            ('func_mismatch', 0), ('func_mismatch', 1), ('undef_const', 0),
            ('bad_connect_args', 0), ('bad_connect_args', 1), ('reserved_name', 0),
-           ('wrong_kind_filter', 0), ('extevent_cblock', 0)]
+           ('wrong_kind_filter', 0), ('wrong_kind_filter', 1), ('wrong_kind_filter', 2),
+           ('wrong_kind_filter', 3), ('wrong_kind_filter', 4), ('wrong_kind_filter', 5),
+           ('extevent_cblock', 0),
+           ('sig_override', 4), ('sig_override', 5), ('sig_override', 6),
+           ('sig_custom', 0), ('sig_custom', 1), ('sig_custom', 2), ('sig_custom', 3),
+           ('sig_custom', 4), ('sig_custom', 5), ('sig_custom', 6), ('sig_custom', 7),
+           ('sig_custom', 8)]
+# where HEAD reports the invalid reference, pinned for the classes where the documentation /
+# the resolver contract says so: a wrong block *object* is refused by the constructor
+# (Circuit.resolve_name: "If the reference is a block object already ... just check the type"),
+# a name or shortcut by the resolver, i.e. before any block is started
+PIN_CONSTRUCTION = {('wrong_kind_filter', 1), ('wrong_kind_filter', 4)}
+PIN_NOTHING_STARTED = {('wrong_kind_filter', 0), ('wrong_kind_filter', 2),
+                       ('wrong_kind_filter', 3), ('wrong_kind_filter', 5)}
+NEEDS_ALL_BLOCKS = {'dup_name', 'second_connect', 'wrong_kind_filter'}
+
+# a user CBlock with a declared input signature (docs/new_cblocks.rst, check_signature)
+SIG_CUSTOM = [
+    ({'a': None}, {'a': ()}),                    # empty group where a single input is expected
+    ({'a': None}, {'a': ['A']}),                 # group of one where a single input is expected
+    ({'g': 2}, {'g': 'A'}),                      # single input where a group is expected
+    ({'g': 2}, {'g': ['A']}),                    # wrong group size
+    ({'g': [1, None]}, {'g': ()}),               # below the minimum
+    ({'g': [0, 1]}, {'g': ['A', 'B']}),          # above the maximum
+    ({'a': None, 'b': None}, {'a': 'A'}),        # missing input
+    ({'a': None}, {'a': 'A', 'b': 'B'}),         # unexpected input
+    ({'a': None, 'g': [0, None]}, {'a': (), 'g': ()}),   # empty group for the single one only
+]
 INSTANTS = ['finalized', 'first_step', 'async_init', 'running', 'stopped']
 MODS = ['new_sblock', 'new_cblock', 'addblock', 'connect_connected', 'connect_unconnected',
         'set_persistent_data', 'set_persistent_none']
@@ -257,8 +286,8 @@ def gen(rng, tier, index=0):
         names = [s['name'] for s in spec['sources']]
         cbn = [c['name'] for c in spec['cblocks'] if c['name'] != 'fz']
         at = rng.choice(spec['order'] + [None, None])
-        if invalid[0] in ('dup_name', 'second_connect'):
-            at = None       # needs the original block
+        if invalid[0] in NEEDS_ALL_BLOCKS:
+            at = None       # needs the original / the referenced block object
         inv = {'cls': invalid[0], 'variant': invalid[1], 'at': at,
                'a': rng.choice(names), 'b': rng.choice(names), 'c': rng.choice(cbn)}
     plan = {'knobs': knobs, 'spec': spec, 'ops': ops, 'pre': pre, 'explicit_finalize': explicit,
@@ -327,8 +356,14 @@ def inject(sim, inv):
             edzed.Override('bad').connect(input=[a], override=b)
         elif var == 2:
             edzed.Override('bad').connect(a, input=a, override=b)
-        else:
+        elif var == 3:
             edzed.Override('bad').connect(input=a, override=b, other=a)
+        elif var == 4:
+            edzed.Override('bad').connect(input=(), override=b)     # empty group, not a single
+        elif var == 5:
+            edzed.Override('bad').connect(input=a, override=[])
+        else:
+            edzed.Override('bad').connect(input=[], override=())
     elif cls == 'not__x':
         edzed.Or('bad').connect(['_not__x', '_not_nosuch', '_nosuch'][var])
     elif cls == 'dup_name':
@@ -386,13 +421,43 @@ def inject(sim, inv):
     elif cls == 'reserved_name':
         edzed.Input('_bad', initdef=0)
     elif cls == 'wrong_kind_filter':
-        # the control block of this filter must be sequential
-        fcls = getattr(edzed, 'NotIfInitialized', None) or edzed.IfNotIitialized
-        edzed.Input('bad', initdef=0, on_output=edzed.Event(a, 'put', efilter=fcls(c)))
+        # the control block of this filter must be sequential; given by name / object /
+        # '_not_NAME' shortcut (an inverter is a CBlock), documented name and old alias.
+        # not_from_undef goes first: no event reaches the filter while the circuit starts,
+        # so only the constructor / the resolver can object
+        fcls = (getattr(edzed, 'NotIfInitialized', None) if var < 3 else None) \
+            or getattr(edzed, 'IfNotIitialized', None) or edzed.NotIfInitialized
+        kind = var % 3
+        if kind == 1:
+            if c not in blocks:
+                raise PlanError('object reference before the block exists')
+            target = blocks[c]
+        else:
+            target = c if kind == 0 else '_not_' + a
+        flt = fcls(target)
+        edzed.Input('bad', initdef=0,
+                    on_output=edzed.Event(a, 'put', efilter=[edzed.not_from_undef, flt]))
+    elif cls == 'sig_custom':
+        esig, conn = SIG_CUSTOM[var]
+        ref = {'A': a, 'B': b}
+        kwargs = {k: (ref[v] if isinstance(v, str) else type(v)(ref[i] for i in v))
+                  for k, v in conn.items()}
+        SigProbe('bad', x_esig=esig).connect(**kwargs)
     elif cls == 'extevent_cblock':
         edzed.ExtEvent(c)
     else:
         raise PlanError(f"unknown invalid class {cls}")
+
+
+class SigProbe(edzed.CBlock):
+    """A user CBlock that declares its input signature the documented way."""
+
+    def calc_output(self):
+        return 0
+
+    def start(self):
+        super().start()
+        self.check_signature(self.x_esig)
 
 
 # --------------------------------------------------------------------------- lifecycle counters
@@ -844,6 +909,12 @@ def execute(plan, trace=False):
                     do_inject()
             except _Stop:
                 pass
+            if inv is not None and istate['stage'] is None \
+                    and (inv['cls'], inv['variant']) in PIN_CONSTRUCTION:
+                run.violate(f"C15/invalid-accepted-by-constructor/{inv['cls']}-{inv['variant']}",
+                            f"{inv['cls']} (variant {inv['variant']}): a block object of the "
+                            "wrong kind was accepted by the constructor (the type of a "
+                            "reference given as an object is checked at once)")
         except PlanError:
             raise
         except (KeyError, TypeError, IndexError, AttributeError) as err:
@@ -950,6 +1021,11 @@ def execute(plan, trace=False):
                                 else 'C15/failed-start/stop-count',
                                 f"{name}: start() returned {st}x, stop() called {sp}x after the "
                                 f"start failed with {cerr(cause)}")
+            if inv is not None and n_started and (inv['cls'], inv['variant']) in PIN_NOTHING_STARTED:
+                run.violate(f"C15/invalid-detected-late/{inv['cls']}-{inv['variant']}",
+                            f"{inv['cls']} (variant {inv['variant']}): a reference by name of the "
+                            f"wrong kind is refused by the name resolver, i.e. before any block "
+                            f"is started; {n_started} blocks were started: {cerr(cause)}")
             if 0 < n_started < len(names):
                 run.fired('reach:start_failed_partial_start')
             elif n_started == 0:
